@@ -7,4 +7,5 @@ let table : (string * (Model.sexp -> Model.sexp)) list = [
   ("rtmr", Model.run_rtmr);
   ("retry", Model.run_retry);
   ("pck", Model.run_pck);
+  ("heap", Model.run_heap);
 ]
